@@ -53,6 +53,14 @@ def runOps (g : Node) : List String → List Json → Except String (List Json)
     | "infer" =>
       let (g', err) := inferTypes g
       runOps g' rest (Json.mkObj [("err", errOpt err), ("g", nodeToJson g')] :: acc)
+    | "dict_rt" =>
+      match (toDict g).bind fromDict with
+      | .ok g' => runOps g' rest (Json.mkObj [("err", .null), ("g", nodeToJson g')] :: acc)
+      | .error e => runOps g rest (Json.mkObj [("err", .str e.name), ("g", nodeToJson g)] :: acc)
+    | "file_rt" =>
+      match (write "v" g).bind read with
+      | .ok g' => runOps g' rest (Json.mkObj [("err", .null), ("g", nodeToJson g')] :: acc)
+      | .error e => runOps g rest (Json.mkObj [("err", .str e.name), ("g", nodeToJson g)] :: acc)
     | "check" =>
       match checkTypes g with
       | .ok b => runOps g rest (Json.mkObj [("r", .bool b)] :: acc)
@@ -93,6 +101,29 @@ def handle (j : Json) : Except String Json := do
     | .ok g =>
       let steps ← runOps g ops [nodeToJson g]
       pure (Json.mkObj [("steps", .arr steps.toArray)])
+  | "to_dict" =>
+    match ← buildRecipe (← j.getObjVal? "graph") with
+    | .error e => pure (errJson e)
+    | .ok g => match toDict g with
+      | .ok d => pure (Json.mkObj [("d", valToJson d)])
+      | .error e => pure (errJson e)
+  | "from_dict" =>
+    let d ← valOfJson (← j.getObjVal? "d")
+    match fromDict d with
+    | .ok g => pure (nodeToJson g)
+    | .error e => pure (errJson e)
+  | "write" =>
+    let version ← (← j.getObjVal? "version").getStr?
+    match ← buildRecipe (← j.getObjVal? "graph") with
+    | .error e => pure (Json.mkObj [("construct_err", .str e.name)])
+    | .ok g => match write version g with
+      | .ok f => pure (Json.mkObj [("file", h5ToJson f)])
+      | .error _ => pure (Json.mkObj [("rejected", .bool true)])
+  | "read_tree" =>
+    let f ← h5OfJson (← j.getObjVal? "file")
+    match read f with
+    | .ok g => pure (nodeToJson g)
+    | .error e => pure (errJson e)
   | "from_list" =>
     let recs ← (← j.getObjVal? "nodes").getArr?
     let mut nodes : List Node := []
